@@ -77,6 +77,13 @@ def run(rep, tier):
     rep.rule("R6", "nesting under (i,n,grad)->(2i,2n,grad/2)")
     rep.trust("scipy.special.erf, sici (Si odd, Ci even for real arguments); brentq returns a root of its constraint to rtol")
     site = gf.site()
+    # which arm is taken must not depend on the sign convention of psi (decreasing psi negates
+    # lower, upper and the gradients): otherwise an arm is used outside the parameter range for
+    # which it is monotonic (rule instances of C16.R4)
+    rep.rule("R0", "premise: arm selection of the grid function compares magnitudes, each arm is odd under psi -> -psi (C16.R4)")
+    from ..report import Premise
+    from . import c16
+    c16.r4(prog, Premise(rep, "R0", "C16"))
     n_arms = 0
     for arm in ARMS:
         label = arm[0]
